@@ -171,11 +171,8 @@ def run(chk):
             if not mir.o_is_call(ro, path="emit::kind::%s" % filt_fn):
                 continue
             for gbb, vals, n in b.guards_of(target_bb):
-                so = b.switch_origin(gbb)
-                neg = False
-                while so[0] == "unop" and so[1] == "Not":
-                    so = so[2]
-                    neg = not neg
+                so, pos_ = mir.norm_bool(b.switch_origin(gbb))
+                neg = not pos_
                 if so[0] == "call" and so[1].bb == m.bb:
                     taken = list(vals) != ["0"]
                     if taken != neg:
@@ -262,6 +259,7 @@ def run(chk):
                 r = ps.ret()
                 if r[0] == "agg" and r[1].get("variant") == "None":
                     for sbb, o, v in ps.decisions():
+                        o = mir.norm_bool(o)[0]
                         ok = (o[0] == "call" and o[1].callee.get("name") == "matches")
                         if not ok:
                             return False, "the traces encoder declines on a decision other than the span-kind filter (%s)" % o_str(o), [], b.span
